@@ -26,5 +26,7 @@ def run(ctx):
     import simple_rules
     simple_rules.lookup_by_position(ctx, prog, "R3")
     xml_rules.no_positional_navigation(ctx, prog, "R4")
+    xml_rules.prototype_order(ctx, prog, "R3")
+    xml_rules.inverse_maps(ctx, prog, "R3", "R3", "R3", only=("PointCloud",))
     ctx.cfg = None
     xml_rules.positional_controls(ctx, "R4")
